@@ -31,7 +31,7 @@ MCSetCands ==
     [pk \in {<< <<>>, "name">>, << <<>>, "pw">>, << <<>>, "hash">>, << <<>>, "blob">>, << <<>>, "bl">>, << <<>>, "sl">>,
              << <<>>, "dd">>, << <<>>, "api">>, << <<"sub">>, "tok">>, << <<>>, "vault">>, << <<"vault">>, "sec">>,
              << <<"vault", "inner">>, "tok">>, << <<>>, "items">>} |->
-        CASE pk[2] = "name"  -> {StrV(<<"b", "o", "b">>)}
+        CASE pk[2] = "name"  -> {StrV(<<"b", "o", "b">>), StrV(<<" ", "p", "a", "d", " ", "<", "&", ">", "\t", "\n">>)}
           [] pk[2] = "pw"    -> {StrV(<<"s", "3", "c", "r", "e", "t", "!", "p", "w">>), StrV(<<>>)}
           [] pk[2] = "hash"  -> {StrV(<<"h", "u", "n", "t", "e", "r", "2", "!">>)}
           [] pk[2] = "blob"  -> {BytesV(<<0, 255, 65>>), BytesV(<<>>)}
